@@ -29,6 +29,7 @@ fn check(id: &str, tier: Tier) -> i32 {
         "C06" => props::c06::check(tier),
         "C07" => props::c07::check(tier),
         "C08" => props::c08::check(tier),
+        "C09" => props::c09::check(tier),
         "C10" => props::c10::check(tier),
         "C11" => props::c11::check(tier),
         "C12" => props::c12::check(tier),
@@ -56,6 +57,7 @@ fn replay(id: &str, f: &Path) -> i32 {
         "C06" => props::c06::replay(f),
         "C07" => props::c07::replay(f),
         "C08" => props::c08::replay(f),
+        "C09" => props::c09::replay(f),
         "C10" => props::c10::replay(f),
         "C11" => props::c11::replay(f),
         "C12" => props::c12::replay(f),
